@@ -142,7 +142,7 @@ def run(chk):
         for msg in crash_oracle(s, out)[:1]:
             chk.failures.append(core.Failure(msg, "session", "naive", l, raw[:2000], key="c19"))
     chk.note_cases("v1-crash", clines, clines, sample_n=1, dist={"crash_cases": len(clines)})
-    if chk.broken and not chk.failures:
+    if (chk.broken or chk.drift) and not chk.failures:
         search(chk, random.Random(chk.seed + 23))
     return chk.finish(level="proof",
         rule="v1 streams: random geometry (sizes 1..128, counts 1..33, slots 17664..21504 B, 3..6 slots), optional earlier updates, up to 6 lost fragments, coded fragments sampled below the parity capacity, orders (data-then-coded / shuffled / coded-first), duplicates, late data, out-of-range indices; "
